@@ -52,12 +52,12 @@ pub fn areas() -> Vec<&'static str> {
         "c04",
         "c07",
         "c10",
+        "c13",
         "c14",
         "c17",
         "c18",
         "c19",
     ]
-    vec!["c17", "c13"]
 }
 
 /// Decode a hex string.
